@@ -55,8 +55,20 @@ LATERS = [["run", "run"], ["run", "recompute", "run"], ["drop", "run"], ["hoist"
           ["recompute", "hoist_recompute", "run"], ["drop2", "run"]]
 
 
+TWO_ORDERS = ("close1-mid2", "finish2-close1", "finish2-drop1", "finish2-finish1",
+              "finish1-finish2")
+
+
 def cases(tier, seed):
     nmax = NMAX[tier]
+    # two first runs through one Cache element alive at the same time
+    for n in range(1, min(nmax, 4) + 1):
+        for ctx in (False, True):
+            for k in range(0, n):
+                for order in TWO_ORDERS:
+                    for where in ("seq", "bare"):
+                        yield {"k": "tworuns", "n": n, "ctx": ctx, "take": k, "order": order,
+                               "where": where}
     for shape in SHAPES:
         for n in range(0, nmax + 1):
             for ctx in [False, True] + (["special"] if shape not in ("acc", "grow") and n >= 2
@@ -424,11 +436,96 @@ class Pipeline(object):
         return self.trace.count("pull")
 
 
+def _run_tworuns(r, obs, d):
+    """One Cache element, no cache file yet: a first run is suspended after *take* values, a
+    second run through the same element starts and the two are finished / closed / dropped in
+    the given order. Every run that is consumed to its end yields its own flow unaltered and
+    does not fail; afterwards a further run replays one of the completely consumed flows
+    without pulling - or, if none was completed, behaves as a first run."""
+    import gc
+    import lena.core
+    import lena.flow
+    n, ctx, take, order, where = r["n"], r["ctx"], r["take"], r["order"], r["where"]
+    obs.nontrivial = True
+    fname = os.path.join(d, "c1.pkl")
+    c = Counters()
+    cache = lena.flow.Cache(fname)
+    pipe = lena.core.Sequence(Up(c), cache, Down(c)) if where == "seq" else cache
+    shape = "seq" if where == "seq" else "bare"
+    pulled = [0, 0, 0]
+
+    def src(j):
+        for v in copy.deepcopy(make_flow(n, ctx, j)):
+            pulled[j] += 1
+            yield v
+    full = [ref_output(shape, make_flow(n, ctx, j)) for j in (0, 1, 2)]
+    tag = "%s order=%s take=%d n=%d" % (where, order, take, n)
+
+    def finish(it, j, got):
+        try:
+            for v in it:
+                got.append(gen.freeze(v))
+        except Exception as e:  # pylint: disable=broad-except
+            obs.fail("run-raises-beside-another-live-run:%s" % where,
+                     "%s: run %d (consumed to its end while another run of the same Cache "
+                     "element was alive) raised %r" % (tag, j + 1, e))
+            return False
+        obs.check(got == full[j], "first-run-alters-flow:two-live-runs:%s" % where,
+                  "%s: run %d yielded %r, its flow gives %r" % (tag, j + 1, got, full[j]))
+        return True
+    it1 = pipe.run(src(0))
+    got1 = [gen.freeze(next(it1)) for _ in range(take)]
+    it2 = pipe.run(src(1))
+    got2 = []
+    completed = []
+    ok = True
+    if order == "close1-mid2":
+        got2.append(gen.freeze(next(it2)))
+        it1.close()
+        ok = finish(it2, 1, got2)
+        completed = [1]
+    elif order in ("finish2-close1", "finish2-drop1"):
+        ok = finish(it2, 1, got2)
+        if order.endswith("close1"):
+            it1.close()
+        else:
+            del it1
+            gc.collect()
+        completed = [1]
+    elif order == "finish2-finish1":
+        ok = finish(it2, 1, got2) and finish(it1, 0, got1)
+        completed = [0, 1]
+    else:
+        ok = finish(it1, 0, got1) and finish(it2, 1, got2)
+        completed = [0, 1]
+    obs.count("two_live_run_histories")
+    if not ok:
+        return
+    leftovers = sorted(f for f in os.listdir(d) if f != "c1.pkl")
+    obs.check(not leftovers, "temporary-files-left:two-live-runs",
+              "%s: files %r left beside the cache" % (tag, leftovers))
+    # a further run: replay of a completely consumed flow, nothing pulled
+    try:
+        got3 = [gen.freeze(v) for v in pipe.run(src(2))]
+    except Exception as e:  # pylint: disable=broad-except
+        obs.fail("later-run-raises:two-live-runs:%s" % where, "%s: the run after both raised %r"
+                 % (tag, e))
+        return
+    obs.count("later_runs")
+    obs.check(any(got3 == full[j] for j in completed) and pulled[2] == 0,
+              "replay-differs:two-live-runs:%s" % where,
+              "%s: the run after both yielded %r and pulled %d values; the completely "
+              "consumed flows were %r" % (tag, got3, pulled[2], [full[j] for j in completed]))
+
+
 def run_case(r, obs):
     d = tempfile.mkdtemp(prefix="rv_c18_")
     COPY_MODE["mode"] = r.get("dup")
     try:
-        _run_case(r, obs, d)
+        if r.get("k") == "tworuns":
+            _run_tworuns(r, obs, d)
+        else:
+            _run_case(r, obs, d)
     finally:
         COPY_MODE["mode"] = None
         audit.stop()
@@ -629,3 +726,7 @@ RULE += (' Shapes also include the Cache alone (alter_sequence of a single eleme
 RULE += (' A further shape names the cache file by a template formatted from the static context.')
 RULE += (' A further shape has a Filter upstream of the Cache whose selector raises StopIteration for '
          'one value (a crash point like the others); recompute is also passed positionally.')
+RULE += (' Added: two first runs through one Cache element alive at the same time (the first '
+         'suspended after k values; then closed / dropped / finished before, during or after '
+         'the second): no run that is consumed to its end fails or is altered, nothing is left '
+         'beside the cache file, and the next run replays a completely consumed flow.')
